@@ -104,6 +104,7 @@ c.finish(
         "hand-written Gallina validator coq/C03/Validate.v + PSyntax.v (from ISO 32000-2 §7.2-7.5; shares only the value datatype with the C02 models)",
     ],
     partial=[
+        "validate_strict adds to validate the two boundary checks and, for every stream object, 7.3.8.2 Table 5: /Filter a name (with /DecodeParms absent or a dictionary) or an array of names (with /DecodeParms absent or an array of exactly the same length whose entries are dictionaries or null); sound_filter_parms states it, model_stream_dicts_aligned proves that every stream dictionary the model writer renders passes it (chains of any length and any pattern of parameters, also stacked on a chain the caller's dictionary declares); the check runs on every file, the generator writes every pattern of (parameters / none) over chains of 1..8 filters in every run.",
         "validate_model_writer_full (Definition): proved are validate_model_writer_partial (every structural fact validate checks holds of every output of the model writer) and parser_accepts_formatter / parser_accepts_object / parser_accepts_stream_dict (the validator's parser reads the canonical formatter's text of every well-formed value as its normal form); the composition into 'validate returns Ok' over whole files is executed on every case.",
         "strict_subset_lenient_full (Definition): stated, not proved; compared on every file of every run (go-pdf's Reader and the validator answer the same references of the same file).",
     ],
